@@ -326,3 +326,54 @@ fn c06_nopanic_payloads() {
 	kani::cover!(res.is_err() && n >= 2 && b[0] == 0x35 && b[1] % 3 == 1, "truncated or incomplete table");
 	forget(res);
 }
+
+fn splitter_wraps(code: u8) {
+	let v = Version(3, 16, 0);
+	let mut state = free_state(v);
+	let mut ev: [u8; 517] = kani::any();
+	ev[0] = 0x10;
+	ev[513] = 0;
+	ev[514] = 40;
+	ev[515] = code;
+	ev[516] = 1;
+	let res = parse_event(&ev[..], &mut state, None);
+	if let Ok(c) = &res {
+		assert!(*c == code);
+		assert!(state.bytes_read() == 517);
+	}
+	forget(res);
+	forget(state);
+}
+
+// @verif property=C06,C08 tier=quick mem=12 timeout=1800
+// @encodes peppi::io::slippi::de::parse_event + handle_splitter_event: a final splitter chunk that wraps an event code the payload table does not declare
+// @symbolic 4096 the 512 data bytes
+// @bound one final 516-byte splitter block (chunk size 40) wrapping code 0x3E (not declared, not known); port-free 3.16 state
+// @stub alloc::fmt::format = returns an empty String
+// @stub std::hash::RandomState::new = fixed keys
+// @cbmc --max-field-sensitivity-array-size 1024
+#[kani::proof]
+#[kani::unwind(10)]
+#[kani::stub(alloc::fmt::format, format_stub)]
+#[kani::stub(std::hash::RandomState::new, random_state_stub)]
+fn c06_nopanic_splitter_wraps_undeclared() {
+	splitter_wraps(0x3E);
+	kani::cover!(true, "returned");
+}
+
+// @verif property=C06,C08 tier=thorough mem=12 timeout=1800
+// @encodes peppi::io::slippi::de::parse_event + handle_splitter_event: a final splitter chunk that wraps code 0xFF / the splitter's own code
+// @symbolic 8192 the 512 data bytes (two calls)
+// @bound final 516-byte splitter blocks wrapping 0xFF and 0x10; port-free 3.16 state
+// @stub alloc::fmt::format = returns an empty String
+// @stub std::hash::RandomState::new = fixed keys
+// @cbmc --max-field-sensitivity-array-size 1024
+#[kani::proof]
+#[kani::unwind(10)]
+#[kani::stub(alloc::fmt::format, format_stub)]
+#[kani::stub(std::hash::RandomState::new, random_state_stub)]
+fn c06_nopanic_splitter_wraps_other() {
+	splitter_wraps(0xFF);
+	splitter_wraps(0x10);
+	kani::cover!(true, "returned");
+}
